@@ -1,4 +1,5 @@
 """Shared pieces of the CFG block (C08, C09, C10, C12)."""
+import os
 from ..engine import Prop, Layer
 from ..gen import cfg as G
 from ..refs import cfg as RC
@@ -23,7 +24,9 @@ W3 = words(3)
 
 
 def cfg_layers(tier, adversarial=("cnf",), extra_quick=(), extra_thorough=()):
-    plain_q = ["natural@plain", "1@plain", "2@plain", "3@plain"]
+    # probing aid: VERIF_EXTRA_ADV=scheme,scheme adds naming schemes to the adversarial-name layers (not used by the
+    # registered commands)
+    adversarial = tuple(adversarial) + tuple(x for x in os.environ.get("VERIF_EXTRA_ADV", "").split(",") if x)
     if tier == "quick":
         ls = [Layer("CFG(2,2,2,<=3)", lambda: G.cfg_cases(2, 2, 2, 0, 3), rep=G.is_rep),
               Layer("CFG(2,2,3,<=2)", lambda: G.cfg_cases(2, 2, 3, 0, 2), rep=G.is_rep),
